@@ -411,7 +411,7 @@ def shapes_of(ob):
     """Shape labels (python side; the same predicates as Devs in the spec)."""
     job = ob['job']
     sh = []
-    if any(k['t'] == 'param' and k['name'].startswith('__') for k in job['defn']):
+    if any(k['t'] == 'param' and k['stars'] == 0 and k['name'].startswith('__') for k in job['defn']):
         sh.append('dunder-param')
     if job['form'] in ('method', 'classmethod', 'init') and job['defn'] and job['defn'][0]['stars'] == 1:
         sh.append('bound-varpositional')
@@ -480,8 +480,8 @@ def judge(ctx, ob, design=None):
         ctx.violation('%s:index' % (sh[0] if sh else 'other:' + job['slot']['t']),
                       'index %s but Python binds the argument being typed to %s (1-based, 0 = None)'
                       % (ob['idx'], ob['acc'] or 'nothing'), rep)
-    if design is not None and ok:
-        # the property relation holds; does the model still predict the code?
+    if design is not None:
+        # does the model still predict the code (also where the code deviates in a named shape)?
         exp = design
         diffs = []
         if exp.get('idx') is not None and exp['idx'] != ob['idx']:
